@@ -378,8 +378,9 @@ func (r *Report) replayAll(dir string) {
 			case o.Kind == "post":
 				if !ro.panicked {
 					// find the clause
+					oname := regexp.MustCompile(`(\[[^\]]*\])+$`).ReplaceAllString(o.Name, "")
 					for k, c := range fx.ctr.Ensures {
-						if strings.Contains(o.Name, fmt.Sprintf("/post%d", k+1)) && (strings.HasSuffix(o.Name, fmt.Sprintf("/post%d%s", k+1, lbl(c)))) {
+						if strings.HasSuffix(oname, fmt.Sprintf("/post%d%s", k+1, lbl(c))) {
 							p := r.concreteClause(fx, c.E, model, ro, true, dir)
 							fmt.Fprintf(&b, "postcondition %q on the real result: %s\n", c.Src, p)
 							if p == "false" {
